@@ -162,8 +162,27 @@ def r3(run, db):
     for f in st:
         run.saw(len(f.blocks), f)
         scan = [c for c in f.calls() if c.matches(r"Iterator::find$|Iterator::find_map$|Iterator::position$")]
-        proc = [g for g in db.children(f.id) if any(c.callee and c.callee.endswith("::is_processing_key") for c in g.calls())]
-        run.check(len(scan) == 1 and len(proc) >= 1, "sticky|processing-scan", "sticky scans the pool for a worker already processing the key", "processing-key scan missing", f.where())
+        # the scan asks "is this key owed to that worker?" -- a key is owed while a job of it is in flight *or* waits in the
+        # worker's private queue (e.g. retained after a failed hand-over to a dying worker, until the replacement takes it).
+        # The pending-key table counts both; the in-flight map alone does not.
+        PEND = fields(db).wp_pending
+        def reads_pending(g, depth=0):
+            for st_site, st in g.stmts():
+                if st["k"] == "assign" and st["rv"]["k"] in ("ref", "use", "rawptr"):
+                    pl = st["rv"].get("p") or (op_place(st["rv"].get("op")) if st["rv"].get("op") else None)
+                    if pl and any((proj_field_name(e) or "") == PEND for e in pl[1] if e.startswith("f:")):
+                        return True
+            if depth < 2:
+                for c in g.calls():
+                    h = db.fns.get(c.resolved or c.callee or "")
+                    if h is not None and h.crate == "ractor" and "WorkerProperties" in h.id and reads_pending(h, depth + 1):
+                        return True
+            return False
+        preds = [g for g in db.children(f.id) if any(c.callee and re.search(r"::(is_processing_key|has_pending_key)$", c.callee) for c in g.calls())]
+        run.check(len(scan) == 1 and len(preds) >= 1, "sticky|processing-scan", "sticky scans the pool for a worker the key is owed to", "key scan missing", f.where())
+        for g in preds:
+            run.check(reads_pending(g), "sticky|scan-counts-queued-jobs", "the scan predicate consults the pending-key table (jobs in flight and queued)",
+                      "the sticky scan looks only at jobs in flight: a key whose job waits in a worker's private queue (retained after a failed hand-over to a dying worker) looks free, its next job goes to another worker, and when the replacement takes the retained job two jobs of one key run on two workers", g.where())
         av = [c for c in f.calls() if c.callee and c.callee.endswith("::is_available")]
         run.anchor("sticky availability tests", len(av), 2, f.where())
         if scan:
@@ -176,11 +195,13 @@ def r3(run, db):
                 run.check(any(f.edge_dominates(e, c.site) for e in miss), "sticky|availability-after-scan@L%s" % ("hint" if c is av[0] else "deque"), "an availability-based choice is made only after the scan found no worker processing the key",
                           "a worker can be chosen by availability before the pool was scanned for the key: two jobs of one key can run on two workers at once", c.where())
         # early hint acceptance only on is_processing_key
-        ipk = [c for c in f.calls() if c.callee and c.callee.endswith("::is_processing_key")]
+        ipk = [c for c in f.calls() if c.callee and re.search(r"::(is_processing_key|has_pending_key)$", c.callee)]
         for c in ipk:
             if scan and not f.dominates(scan[0].site, c.site):
                 te = true_edge(f, c)
-                run.check(te is not None, "sticky|hint-if-processing", "before the scan the hint is accepted only when it is processing the key", None, c.where())
+                run.check(te is not None, "sticky|hint-if-processing", "before the scan the hint is accepted only when the key is owed to it", None, c.where())
+                h = db.fns.get(c.resolved or c.callee or "")
+                run.check(h is not None and reads_pending(h, 1), "sticky|hint-counts-queued-jobs", "the early hint test consults the pending-key table", "the early hint test looks only at jobs in flight", c.where())
 
 
 def r4(run, db):
